@@ -19,8 +19,9 @@ from . import report
 PROPS = ["C%02d" % i for i in range(1, 21)]
 
 
-def run_check(prop, tier, only_rule=None):
+def run_check(prop, tier, only_rule=None, no_evidence=False):
     ctx = report.Ctx(prop, tier, only_rule)
+    ctx.no_evidence = no_evidence
     try:
         mod = importlib.import_module("sa.rules.%s" % prop.lower())
     except ImportError as ex:
@@ -43,6 +44,7 @@ def main(argv=None):
     c.add_argument("prop")
     c.add_argument("--tier", default=os.environ.get("VERIF_TIER", "quick"))
     c.add_argument("--rule", default=None)
+    c.add_argument("--no-evidence", action="store_true")
     r = sub.add_parser("replay")
     r.add_argument("path")
     a = sub.add_parser("all")
@@ -52,7 +54,7 @@ def main(argv=None):
     st.add_argument("--only", default=None)
     args = ap.parse_args(argv)
     if args.cmd == "check":
-        return run_check(args.prop.upper(), args.tier, args.rule)
+        return run_check(args.prop.upper(), args.tier, args.rule, args.no_evidence)
     if args.cmd == "replay":
         with open(args.path) as f:
             d = json.load(f)
